@@ -9,11 +9,23 @@ META["assumptions"] = _M["assumptions"] + [
 CLASSES = ["contracts.C04_all:EqProjection", "contracts.C04_all:IneqProjection", "contracts.C04_all:EqProjectionWithVar", "contracts.C04_all:IneqProjectionWithVar"]
 
 
+def _native(fn, **kw):
+    from . import C04_native as C
+    return getattr(C, fn)(**kw)
+
+
 def jobs(tier, seed):
-    return e2_jobs("C04", CLASSES, tier, seed)
+    from qverif.core.runner import Job
+    js = e2_jobs("C04", CLASSES, tier, seed)
+    # bounded stand-in (native floats): the same contract over the scales 1e-3 .. 1e3 the property quantifies over
+    parts = 2 if tier == "quick" else 8
+    for part in range(parts):
+        js.append(Job(f"C04/scale-sweep (instances)/{part}", "contracts.C04:_native",
+                      dict(fn="job_scale_sweep", tier=tier, seed=seed, part=part, parts=parts), timeout_s=900.0))
+    return js
 
 
 CLAIM = {'engine': 'E2-symtwin', 'level': 'proof',
  'text': 'Equality projections of all four types: exact feasibility, idempotence, identity on feasible points, the variational identity <x-Px, y-Px> = 0 against an arbitrary feasible y, object-level = variable-level (both flags, closures included) and the frame (argument arrays unchanged) are polynomial VCs over all real parameters, discharged per configuration. Inequality projections: the result denotes V max(w,0) V^H of the denoted operator(s), relative to the assumed eigh contract, object-level = variable-level, frame.',
- 'note': 'all-inputs@config (1q, 1qt[, 2q]; m 2..3 quick, 2..5 thorough; both flags; orthonormal Hermitian bases, the library precondition). Assumed: eigh contract; T1 (positive part is the nearest PSD matrix) -- nearest-point-ness of the inequality projection rests on T1. Floats as reals.',
+ 'note': 'all-inputs@config (1q, 1qt[, 2q]; m 2..3 quick, 2..5 thorough; both flags; orthonormal Hermitian bases, the library precondition). Assumed: eigh contract; T1 (positive part is the nearest PSD matrix) -- nearest-point-ness of the inequality projection rests on T1. Floats as reals in the proofs; magnitude-dependent behaviour (absolute truncation thresholds, rounding of eigh) is evaluated natively on seeded random inputs of the scales 1e-3 .. 1e3 (independent eigendecomposition reference, variational inequality against random feasible competitors, idempotence, frame, object = variable level) as a bounded stand-in, not counted as proved; that sweep carries one known finding (scale 1e3 with the default imaginary-part threshold).',
  'technique': 'contract-based deductive verification (symbolic execution of the real source -> VCs, normaliser + z3)'}
